@@ -127,4 +127,246 @@ def verifiedTryFrom (oks : Nat → Oracle) (drift tn td : Nat) (now : Int) (l : 
   | [] => .ok
   | head :: tail => verifyAdjacentRange oks drift tn td now head tail
 
+
+/-! ## C01 — `ExtendedHeader::validate`
+
+  Rust                                                        Lean
+  ----------------------------------------------------------  ---------------------------
+  types/src/block/header.rs  ValidateBasic for Header            headerValidateBasic
+  types/src/block/commit.rs  ValidateBasic for Commit, is_zero   commitValidateBasic, BlockId.isZero
+  types/src/validator_set.rs ValidateBasic for Set               Commit.valSetValidateBasic
+  types/src/block/commit.rs  CommitExt::vote_sign_bytes          voteMsg (the signed content, not its encoding)
+  types/src/data_availability_header.rs validate_basic           dahValidateBasic
+  consts.rs AppVersion::from_u64 / max_extended_square_width     Consts.maxExtWidth?
+  types/src/extended_header.rs ExtendedHeader::validate          validate
+
+  Primitives that are parameters (`Prims`): the three hashes (`Header::hash`, `Set::hash`,
+  `DataAvailabilityHeader::hash`) and signature verification.  The signature type `S` is generic:
+  bytes in the driver, anything in theorems.
+-/
+
+abbrev Bytes := List UInt8
+
+/-- `tendermint::block::Id` -/
+structure BlockId where
+  hash : Hash
+  /-- `part_set_header.total` -/
+  pst : Nat
+  /-- `part_set_header.hash` -/
+  psh : Hash
+  deriving Repr, DecidableEq
+
+/-- `is_zero` of types/src/block/commit.rs -/
+def BlockId.isZero (b : BlockId) : Bool := b.hash.isNone && b.psh.isNone && b.pst == 0
+
+/-- `block::Id::default()` -/
+def BlockId.zero : BlockId := { hash := none, pst := 0, psh := none }
+
+/-- `tendermint::block::Header` -/
+structure HeaderF where
+  versionBlock : Nat
+  versionApp : Nat
+  chainId : Bytes
+  height : Nat
+  time : Int
+  lastBlockId : Option BlockId
+  lastCommitHash : Option Hash
+  dataHash : Option Hash
+  validatorsHash : Hash
+  nextValidatorsHash : Hash
+  consensusHash : Hash
+  appHash : Bytes
+  lastResultsHash : Option Hash
+  evidenceHash : Option Hash
+  proposerAddress : Bytes
+  deriving Repr, DecidableEq
+
+/-- what `Header::hash` actually hashes: the optional fields go through `unwrap_or_default()` -/
+def HeaderF.canon (h : HeaderF) : HeaderF :=
+  { h with
+    lastBlockId := some (h.lastBlockId.getD BlockId.zero)
+    lastCommitHash := some (h.lastCommitHash.getD none)
+    dataHash := some (h.dataHash.getD none)
+    lastResultsHash := some (h.lastResultsHash.getD none)
+    evidenceHash := some (h.evidenceHash.getD none) }
+
+/-- `validator::Info` with its key -/
+structure ValK where
+  pk : Bytes
+  addr : Addr
+  power : Nat
+  deriving Repr, DecidableEq
+
+structure SetK where
+  vals : List ValK
+  total : Nat
+  hasProposer : Bool
+  deriving Repr, DecidableEq
+
+def SetK.toValSet (s : SetK) : ValSet :=
+  { vals := s.vals.map (fun v => { addr := v.addr, power := v.power }), total := s.total,
+    hasProposer := s.hasProposer }
+
+/-- what `Set::hash` hashes: `SimpleValidator { pub_key, voting_power }` per validator -/
+def SetK.hashed (s : SetK) : List (Bytes × Nat) := s.vals.map (fun v => (v.pk, v.power))
+
+/-- `CommitSig` with its data -/
+structure EntryF (S : Type) where
+  flag : Flag
+  addr : Addr
+  ts : Int
+  sig : Option S
+  deriving Repr, DecidableEq
+
+def EntryF.toCSig {S : Type} (e : EntryF S) : CSig :=
+  { flag := e.flag, addr := e.addr, hasSig := e.sig.isSome }
+
+structure CommitF (S : Type) where
+  height : Nat
+  round : Nat
+  blockId : BlockId
+  sigs : List (EntryF S)
+  deriving Repr, DecidableEq
+
+structure DahF where
+  rows : List Bytes
+  cols : List Bytes
+  deriving Repr, DecidableEq
+
+structure ExtHeader (S : Type) where
+  header : HeaderF
+  commit : CommitF S
+  valset : SetK
+  dah : DahF
+  deriving Repr, DecidableEq
+
+/-- content of what a validator signs (`vote_sign_bytes` = tendermint `CanonicalVote`): vote type
+    Precommit, commit height and round, `Some(block_id)`, the entry's timestamp, chain id.
+    NOT part of it: the entry's validator address and the validator index (`Vote` carries them,
+    `CanonicalVote::new` drops them). -/
+structure VoteMsg where
+  chainId : Bytes
+  height : Nat
+  round : Nat
+  blockId : BlockId
+  ts : Int
+  deriving Repr, DecidableEq
+
+structure Prims (S : Type) where
+  hHeader : HeaderF → Hash
+  hValset : List (Bytes × Nat) → Hash
+  /-- Merkle root over `row_roots ++ column_roots` -/
+  hDah : List Bytes → Hash
+  sigValid : Bytes → VoteMsg → S → Bool
+
+/-- constants of the source (regenerated into `Lumina.Gen.C01`) -/
+structure Consts where
+  blockProtocol : Nat
+  maxChainIdLen : Nat
+  genesisHeight : Nat
+  minExtWidth : Nat
+  /-- (app version, SQUARE_SIZE_UPPER_BOUND) for every supported version -/
+  squareUpper : List (Nat × Nat)
+  /-- `max_extended_square_width = square_size_upper_bound * extFactor` -/
+  extFactor : Nat
+  lightNum : Nat
+  lightDen : Nat
+
+/-- `AppVersion::from_u64(v).map(max_extended_square_width)` -/
+def Consts.maxExtWidth? (c : Consts) (app : Nat) : Option Nat :=
+  (c.squareUpper.lookup app).map (· * c.extFactor)
+
+inductive ValErr where
+  | versionBlock | chainIdLen | heightZero | genesisLastBlockId | missingLastBlockId
+  | blockIdZero | noSignatures | commitSigNoSignature
+  | validatorsEmpty | proposerNone
+  | validatorsHash | dahHash | commitHeight | commitBlockIdHash
+  | commit (e : Err)
+  | unsupportedAppVersion (v : Nat)
+  | dahColsRows | dahTooSmall | dahTooBig
+  deriving Repr, DecidableEq
+
+inductive ValOut where
+  | ok
+  | err (e : ValErr)
+  | panic
+  deriving Repr, DecidableEq
+
+/-- `impl ValidateBasic for Header` -/
+def headerValidateBasic (c : Consts) (h : HeaderF) : Option ValErr :=
+  if h.versionBlock ≠ c.blockProtocol then some .versionBlock
+  else if h.chainId.length > c.maxChainIdLen then some .chainIdLen
+  else if h.height = 0 then some .heightZero
+  else if h.height = c.genesisHeight ∧ h.lastBlockId.isSome then some .genesisLastBlockId
+  else if h.height ≠ c.genesisHeight ∧ h.lastBlockId.isNone then some .missingLastBlockId
+  else none
+
+/-- `impl ValidateBasic for Commit` -/
+def commitValidateBasic {S : Type} (c : Consts) (cm : CommitF S) : Option ValErr :=
+  if cm.height ≥ c.genesisHeight then
+    if cm.blockId.isZero then some .blockIdZero
+    else if cm.sigs.isEmpty then some .noSignatures
+    else if cm.sigs.all (fun e => commitSigValidateBasic e.toCSig) then none
+    else some .commitSigNoSignature
+  else none
+
+def valSetValidateBasicE (s : SetK) : Option ValErr :=
+  if s.vals.isEmpty then some .validatorsEmpty
+  else if !s.hasProposer then some .proposerNone
+  else none
+
+/-- `ValidateBasicWithAppVersion for DataAvailabilityHeader` -/
+def dahValidateBasic (minW maxW : Nat) (d : DahF) : Option ValErr :=
+  if d.cols.length ≠ d.rows.length then some .dahColsRows
+  else if d.rows.length < minW then some .dahTooSmall
+  else if d.rows.length > maxW then some .dahTooBig
+  else none
+
+def voteMsg {S : Type} (eh : ExtHeader S) (e : EntryF S) : VoteMsg :=
+  { chainId := eh.header.chainId, height := eh.commit.height, round := eh.commit.round,
+    blockId := eh.commit.blockId, ts := e.ts }
+
+/-- the signature oracle of light verification, spelled out: entry `j`'s signature under
+    validator `i`'s key for entry `j`'s vote -/
+def sigOracle {S : Type} (P : Prims S) (eh : ExtHeader S) : Nat → Nat → Bool :=
+  fun i j =>
+    match eh.valset.vals[i]?, eh.commit.sigs[j]? with
+    | some v, some e =>
+      (match e.sig with
+       | some s => P.sigValid v.pk (voteMsg eh e) s
+       | none => false)
+    | _, _ => false
+
+def commitOut : Outcome → ValOut
+  | .ok => .ok
+  | .err e => .err (.commit e)
+  | .panic => .panic
+
+/-- `ExtendedHeader::validate` -/
+def validate {S : Type} (P : Prims S) (c : Consts) (eh : ExtHeader S) : ValOut :=
+  match headerValidateBasic c eh.header with
+  | some e => .err e
+  | none =>
+  match commitValidateBasic c eh.commit with
+  | some e => .err e
+  | none =>
+  match valSetValidateBasicE eh.valset with
+  | some e => .err e
+  | none =>
+  if P.hValset eh.valset.hashed ≠ eh.header.validatorsHash then .err .validatorsHash
+  else if P.hDah (eh.dah.rows ++ eh.dah.cols) ≠ eh.header.dataHash.getD none then .err .dahHash
+  else if eh.commit.height ≠ eh.header.height then .err .commitHeight
+  else if eh.commit.blockId.hash ≠ P.hHeader eh.header.canon then .err .commitBlockIdHash
+  else
+  match commitOut (verifyCommitLight (sigOracle P eh) c.lightNum c.lightDen eh.valset.toValSet
+          eh.header.height eh.commit.height (eh.commit.sigs.map EntryF.toCSig)) with
+  | .ok =>
+    (match c.maxExtWidth? eh.header.versionApp with
+     | none => .err (.unsupportedAppVersion eh.header.versionApp)
+     | some maxW =>
+       match dahValidateBasic c.minExtWidth maxW eh.dah with
+       | some e => .err e
+       | none => .ok)
+  | r => r
+
 end Lumina.Model.HeaderVerify
